@@ -230,7 +230,8 @@ public:
 
 class NiBlendBoolInterpolator : public NiCloneableStreamable<NiBlendBoolInterpolator, NiBlendInterpolator> {
 public:
-	bool value = false;
+	// Stored as a byte: files use values other than 0 and 1 (2 = invalid), which a bool cannot hold
+	uint8_t value = 0;
 
 	static constexpr const char* BlockName = "NiBlendBoolInterpolator";
 	const char* GetBlockName() override { return BlockName; }
